@@ -266,8 +266,16 @@ def tie_reduction_rules(ctx):
     rng = ctx.rng
     n = 24 if ctx.tier == "quick" else 120
     rows = []
-    sm_rule = sm_mod._softmax_batch_rule
-    st_rule = st_mod._standardize_batch_rule
+    # the rules as REGISTERED with jax (whatever the module calls them): batching.primitive_batchers[prim] = rule stores
+    # fancy_primitive_batchers[prim] = wrapped(axis_data, vals, dims, **params)
+    from jax._src.interpreters import batching as jb
+    reg_sm = jb.fancy_primitive_batchers.get(sm_mod.SoftmaxPlugin._PRIM)
+    reg_st = jb.fancy_primitive_batchers.get(st_mod.StandardizePlugin._PRIM)
+    if reg_sm is None or reg_st is None:
+        ctx.oblige("tie:reduction-batch-rules-registered", False, "tie", "no batch rule registered for jax.nn.softmax / jax.nn.standardize")
+        return
+    sm_rule = lambda vals, dims, **params: reg_sm(None, vals, dims, **params)
+    st_rule = lambda vals, dims, **params: reg_st(None, vals, dims, **params)
     saved_sm = sm_mod._JAX_SOFTMAX_ORIG
     slot = "__orig_impl__standardize"
     had = hasattr(st_mod.StandardizePlugin._PRIM, slot)
